@@ -221,8 +221,8 @@ Lemma load_rows_db : forall rs s, dbc (fst (load_rows rs s)) = dbc s /\ dbp (fst
 Proof. intros rs s. apply (fold_resolve_db rs (s, [])). Qed.
 Lemma load_parent_db : forall k s, dbc (fst (load_parent k s)) = dbc s /\ dbp (fst (load_parent k s)) = dbp s.
 Proof.
-  intros k s. unfold load_parent. destruct (find_p k (ps s)) as [[i [|]]|]; try (destruct (memN k (dbp s)); simpl; auto).
-  simpl; auto.
+  intros k s. unfold load_parent.
+  destruct (find_p k (ps s)) as [[i [|]]|]; destruct (memN k (dbp s)); simpl; auto.
 Qed.
 
 Theorem disabled_writes_nothing : forall k m a s, enabled k m s = false ->
@@ -237,7 +237,6 @@ Proof.
   - simpl; auto.
   - simpl; auto.
   - destruct (find_ident (Z.to_N a) (cs s)); [simpl; auto|].
-    destruct (find_ident (Z.to_N a) (cs s)); [simpl; auto|].
     destruct (row_get (Z.to_N a) (dbc s)) as [r|]; [|simpl; auto].
     destruct (load_rows_db [(Z.to_N a, r)] s) as (X & Y & _). destruct (load_rows _ s). simpl in *. auto.
   - destruct (find_c (Z.to_N a) (cs s)) as [o|]; [|simpl; auto].
